@@ -99,6 +99,8 @@ theorem sim_close {cfg : Cfg} {d d' : RState} {m : Mon} {o : Obs} (hs : Sim cfg 
         · exact chkLog_nil _ _ _
         · simp [chkNoId, hreq]
         · rfl
+        · intro h hh; cases hh
+        · rfl
         · rfl
         · simp [countersAfter, hne, hs.nslow, hs.nasync]
         · exact hop
@@ -147,6 +149,8 @@ theorem sim_close {cfg : Cfg} {d d' : RState} {m : Mon} {o : Obs} (hs : Sim cfg 
         · rw [hreq]; rfl
         · exact chkLog_nil _ _ _
         · simp [chkNoId, hreq]
+        · rfl
+        · intro h hh; cases hh
         · rfl
         · rfl
         · simp [countersAfter, hs.nslow, hs.nasync]
